@@ -504,6 +504,7 @@ func execC19(c Case) string {
 		cs := coinset.NewCoinSet(nil)
 		next := 0
 		res := []string{}
+		made := []*hcoin{}
 		for _, op := range splitOr(a[0], ",") {
 			switch op[0] {
 			case 'u':
@@ -511,7 +512,11 @@ func execC19(c Case) string {
 				c := &hcoin{id: next, value: atoi64(f[0]), confs: atoi64(f[1])}
 				c.hash[0], c.hash[1] = byte(next), byte(next>>8)
 				next++
+				made = append(made, c)
 				cs.PushCoin(c)
+				res = append(res, ".")
+			case 'r': // r<k>: the k-th coin object of this history pushed again (the same pointer)
+				cs.PushCoin(made[atoi(op[1:])])
 				res = append(res, ".")
 			case 'o':
 				c := cs.PopCoin()
@@ -686,9 +691,20 @@ func genC19(r *Rng, tier string, emit func(Case)) {
 		}
 		if i%6 == 0 {
 			ops := []string{}
+			nmade := 0
 			for j := 0; j < r.Intn(20); j++ {
+				if nmade > 0 && r.Intn(4) == 0 {
+					// the same coin object again: mostly the one pushed last (it is at the back of the list)
+					k := nmade - 1
+					if r.Intn(3) == 0 {
+						k = r.Intn(nmade)
+					}
+					ops = append(ops, "r"+itoa(k))
+					continue
+				}
 				switch r.Intn(4) {
 				case 0, 1:
+					nmade++
 					ops = append(ops, "u"+itoa(r.Intn(1000))+":"+itoa(r.Intn(50)))
 				case 2:
 					ops = append(ops, "o")
